@@ -141,6 +141,12 @@ static scpi_result_t generic(scpi_t *c) {
         else if (!strcmp(name, "RCHARS")) { unsigned char *t = malloc(strlen(a1) / 2 + 1); size_t n = unhex(a1, t); SCPI_ResultCharacters(c, (char *) t, n); free(t); }
         else if (!strcmp(name, "RMNEM")) { unsigned char *t = malloc(strlen(a1) / 2 + 1); size_t n = unhex(a1, t); t[n] = 0; SCPI_ResultMnemonic(c, (char *) t); free(t); }
         else if (!strcmp(name, "RBLOCK")) { unsigned char *t = malloc(strlen(a1) / 2 + 1); size_t n = unhex(a1, t); SCPI_ResultArbitraryBlock(c, t, n); free(t); }
+        else if (!strcmp(name, "RBIG") || !strcmp(name, "RBIGS")) {   /* RBIG:n:seed  one block of n pattern bytes; RBIGS:n:seed:chunk  the same streamed in pieces */
+            size_t n = strtoul(a1, 0, 10), chunk = strtoul(a3, 0, 10); unsigned sd = (unsigned) atoi(a2); unsigned char *t = malloc(n ? n : 1);
+            for (size_t i = 0; i < n; i++) t[i] = (unsigned char) (sd + i * 7);
+            if (!strcmp(name, "RBIG")) SCPI_ResultArbitraryBlock(c, t, n);
+            else { SCPI_ResultArbitraryBlockHeader(c, n); for (size_t off = 0; off < n && chunk; off += chunk) SCPI_ResultArbitraryBlockData(c, t + off, n - off < chunk ? n - off : chunk); }
+            free(t); }
         else if (!strcmp(name, "RHDR")) SCPI_ResultArbitraryBlockHeader(c, strtoul(a1, 0, 10));
         else if (!strcmp(name, "RDATA")) { unsigned char *t = malloc(strlen(a1) / 2 + 1); size_t n = unhex(a1, t); SCPI_ResultArbitraryBlockData(c, t, n); free(t); }
         else if (!strcmp(name, "RARR")) {   /* RARR:size:fmt:hexdata  (little-endian element images) */
